@@ -96,7 +96,8 @@ NodeName == [ xyz |-> "Xyz", yxy |-> "Yxy", lab |-> "Lab", lch |-> "Lch", luv |-
               adobe |-> "Rgb", linadobe |-> "Rgb", p3 |-> "Rgb", linp3 |-> "Rgb", rec2020 |-> "Rgb", linrec2020 |-> "Rgb",
               rec709 |-> "Rgb", hsv_linsrgb |-> "Hsv", hsl_linsrgb |-> "Hsl", hwb_rec709 |-> "Hwb", hsv_adobe |-> "Hsv", hsl_p3 |-> "Hsl", hwb_rec2020 |-> "Hwb",
               xyz50 |-> "Xyz", lab50 |-> "Lab", lch50 |-> "Lch", luv50 |-> "Luv", prophoto |-> "Rgb", linprophoto |-> "Rgb",
-              hsv_prophoto |-> "Hsv", xyzdci |-> "Xyz", labdci |-> "Lab", dcip3 |-> "Rgb", lindcip3 |-> "Rgb" ]
+              hsv_prophoto |-> "Hsv", xyzdci |-> "Xyz", labdci |-> "Lab", dcip3 |-> "Rgb", lindcip3 |-> "Rgb",
+              dcip3plus |-> "Rgb", lindcip3plus |-> "Rgb" ]
 NodeStd == [ n \in DOMAIN NodeName |-> CASE n \in {"srgb", "hsl", "hsv", "hwb", "srgbluma"} -> "srgb"
                                             [] n \in {"linsrgb", "linluma", "hsv_linsrgb", "hsl_linsrgb"} -> "linear"
                                             [] n = "hwb_rec709" -> "rec709"
@@ -104,11 +105,11 @@ NodeStd == [ n \in DOMAIN NodeName |-> CASE n \in {"srgb", "hsl", "hsv", "hwb", 
                                             [] n \in {"p3", "hsl_p3"} -> "p3"
                                             [] n \in {"rec2020", "hwb_rec2020"} -> "rec2020"
                                             [] n \in {"prophoto", "hsv_prophoto"} -> "prophoto"
-                                            [] n \in {"linadobe", "linp3", "linrec2020", "rec709", "linprophoto", "dcip3", "lindcip3"} -> n
+                                            [] n \in {"linadobe", "linp3", "linrec2020", "rec709", "linprophoto", "dcip3", "lindcip3", "dcip3plus", "lindcip3plus"} -> n
                                             [] OTHER -> "" ]
 (* the white point every node is relative to; conversions exist only within one white point *)
 NodeWp == [ n \in DOMAIN NodeName |-> CASE n \in {"xyz50", "lab50", "lch50", "luv50", "prophoto", "linprophoto", "hsv_prophoto"} -> "D50"
-                                           [] n \in {"xyzdci", "labdci", "dcip3", "lindcip3"} -> "DCI"
+                                           [] n \in {"xyzdci", "labdci", "dcip3", "lindcip3", "dcip3plus", "lindcip3plus"} -> "DCI"
                                            [] OTHER -> "D65" ]
 (* conversions between DIFFERENT types that carry an RGB standard (hand-written or derived) are generic
    over ONE standard - the derive instantiates the source with the target's standard - whereas
